@@ -1647,7 +1647,12 @@ class Interp:
                     from .models import elem_term
                     if elem_term(T, ZERO, ln, ctx) == init:
                         return select_term(kind, T, ln, ctx)
-        inner = t_app(kind, [seq])
+        if seq_len is not None and ctx.decide(cmp_term('Gt', seq_len, 0)) is True:
+            # a non-empty sequence: the selection over it has the element hull as its range, so a neutral initial value
+            # (0 for a maximum over unsigned elements) drops out
+            inner = select_term(kind, seq, seq_len, ctx)
+        else:
+            inner = t_app(kind, [seq])
         return (t_max if kind == 'max' else t_min)(init, inner, ctx)
 
     def _seq_len(self, T, ctx):
@@ -2143,6 +2148,14 @@ class Interp:
                             st.ctx.assume(cond)
                     self.models_used.add('core::ops on primitive references (%s)' % op_)
                     return self.finish_model(st, fr, t, r_)
+        # checked conversions between integer types
+        for path, ga in cands:
+            if _re.match(r"^core::convert::num::<impl core::convert::TryFrom<\w+> for \w+>::try_from$", path) or \
+                    _re.match(r"^<\w+ as core::convert::TryFrom<\w+>>::try_from$", path):
+                if len(args) == 1 and isinstance(args[0], Num):
+                    from .models import m_int_try_from
+                    self.models_used.add('integer TryFrom')
+                    return self.finish_model(st, fr, t, m_int_try_from(self, st, fr, t, args, ga))
         # comparison traits on primitive numbers (`a < b` under a type parameter, `x.lt(&y)`)
         for path, ga in cands:
             mm = _re.match(r"^<&?(?:'\w+ )?(\w+) as core::cmp::(?:PartialOrd|PartialEq)(?:<&?(?:'\w+ )?\w+>)?>::(lt|le|gt|ge|eq|ne)$", path)
